@@ -116,6 +116,15 @@ class _TextFieldIterator:
   def cur(self) -> int:
     return _UNUSED_SPACE_CODE if self.pos >= len(self.tf) else self.tf[self.pos]
 
+  def has_printable_on_row(self) -> bool:
+    """Returns whether a printable character follows the current position on the current row"""
+    for c in self.tf[self.pos + 1:]:
+      if _is_newline_code(c) or _is_unused_space_code(c):
+        return False
+      if _is_printable_code(c):
+        return True
+    return False
+
   def __next__(self) -> int:
     c = self.peek_next()
     self.pos = min(self.pos + 1, len(self.tf))
@@ -225,7 +234,10 @@ def to_model(element: model.ContentElement, is_teletext: bool, tti_cct: bytes, t
       break
 
     if _is_character_code(c):
-      if _is_printable_code(c) or (_is_printable_code(tf_iter.peek_next()) and _is_printable_code(tf_iter.peek_prev())):
+      # keep the spaces that separate printable characters of a row, including runs of spaces and spaces next to
+      # control codes, but skip the trailing spaces of the row and the spaces between control codes
+      if _is_printable_code(c) or \
+        ((_is_printable_code(tf_iter.peek_next()) or _is_printable_code(tf_iter.peek_prev())) and tf_iter.has_printable_on_row()):
         context.append_character(c)
 
     elif _is_newline_code(c):
@@ -269,7 +281,8 @@ def to_model(element: model.ContentElement, is_teletext: bool, tti_cct: bytes, t
       elif c == 0x83:
         context.set_underline(False)
 
-      if (_is_printable_code(tf_iter.peek_next()) and _is_printable_code(tf_iter.peek_prev())):
+      if _is_printable_code(tf_iter.peek_next()) and \
+        (_is_printable_code(tf_iter.peek_prev()) or _is_space_code(tf_iter.peek_prev())):
         context.append_character(0X20)
 
     next(tf_iter)
